@@ -206,6 +206,8 @@ namespace { struct NullBuf : std::streambuf { int overflow(int c) override { ret
 Interp::Interp(const std::string &scratchDir) : dir(scratchDir) { slots.resize(4); obj.reset(new ezc3d::c3d()); trace = getenv("VERIF_TRACE") != nullptr; }
 Interp::Interp(const RunCtx &ctx) : Interp(ctx.scratch) { openFindings = ctx.openFindings; }
 Interp::~Interp() {}
+ParamSpec Interp::specOf(const Op &op) const { ParamSpec s = paramSpecOf(op); if (namesUpper) { s.group = upper(s.group); s.name = upper(s.name); } return s; }
+std::string Interp::groupOf(long long g) const { std::string n = groupNameOf(g); return namesUpper ? upper(n) : n; }
 
 void Interp::run(const Case &c) {
     caseOps = &c.ops;
@@ -230,6 +232,10 @@ void Interp::run(const Case &c) {
 Outcome Interp::exec(const Op &op) {
     Outcome out;
     const std::string &k = op.code;
+    if (analogGroupEmpty && openFindings.count("KF-EMPTYANALOG") &&
+        (k == "declp" || k == "decla" || k == "fsub" || k == "pcol" || k == "acol" || k == "param" || k == "prate" || k == "arate" || k == "gapfill" || k == "padp" || k == "limit")) {
+        excluded["KF-EMPTYANALOG"]++; out.skipped = true; out.note = "excluded: known finding KF-EMPTYANALOG (editing an object whose ANALOG group is empty)"; return out;
+    }
     try {
         if (k == "new") { obj.reset(new ezc3d::c3d()); }
         else if (k == "load") {
@@ -240,6 +246,8 @@ Outcome Interp::exec(const Op &op) {
             writeBytes(p, fileBytes);
             std::unique_ptr<ezc3d::c3d> n(new ezc3d::c3d(p));
             obj = std::move(n);
+            namesUpper = true;
+            analogGroupEmpty = obj->parameters().group("ANALOG").nbParameters() == 0;
         }
         else if (k == "declp" || k == "decla" || k == "declax") {
             const bool isP = k == "declp";   // declax: decla never excluded
@@ -287,8 +295,8 @@ Outcome Interp::exec(const Op &op) {
             p.set(std::vector<int>() = {static_cast<int>(n % 256)});
             obj->parameter(k == "pused" ? "POINT" : "ANALOG", p);
         }
-        else if (k == "param") {
-            ParamSpec s = paramSpecOf(op);
+        else if (k == "param" || k == "paramx") {
+            ParamSpec s = specOf(op);
             Outcome setOut;
             ezc3d::ParametersNS::GroupNS::Parameter p = makeParameter(s, setOut);
             if (setOut.threw) { out = setOut; out.note = "set-refused"; out.mutating = false; return out; }
@@ -334,8 +342,8 @@ Outcome Interp::exec(const Op &op) {
             default: out.skipped = true; out.mutating = false; break;
             }
         }
-        else if (k == "lockg") { out.mutating = true; obj->lockGroup(groupNameOf(op.arg(0))); }
-        else if (k == "unlockg") { out.mutating = true; obj->unlockGroup(groupNameOf(op.arg(0))); }
+        else if (k == "lockg") { out.mutating = true; obj->lockGroup(groupOf(op.arg(0))); }
+        else if (k == "unlockg") { out.mutating = true; obj->unlockGroup(groupOf(op.arg(0))); }
         else if (k == "fbuild") {
             size_t slot = static_cast<size_t>((op.arg(0) < 0 ? -op.arg(0) : op.arg(0)) % 4);
             slots[slot] = buildFrame(shapeOf(*obj), op.arg(1), static_cast<uint64_t>(op.arg(2)), out.note);
@@ -486,6 +494,7 @@ Outcome Interp::exec(const Op &op) {
             obj->write(lastSavePath);
             std::unique_ptr<ezc3d::c3d> n(new ezc3d::c3d(lastSavePath));
             obj = std::move(n);
+            namesUpper = true;
         }
         else if (k == "obs" || k == "look") {}
         else { out.skipped = true; out.note = "unknown op"; }
